@@ -91,7 +91,7 @@ func parseGPSCoordinate(buf []byte) float64 {
 	}
 	var v float64
 	scale := 1.0
-	parts := bytes.Split(buf[:n-1], []byte{','})
+	parts := bytes.SplitN(buf[:n-1], []byte{','}, 4) // two or three parts are valid: no need to cut a long value at every comma
 	if len(parts) != 2 && len(parts) != 3 {
 		return 0
 	}
